@@ -13,7 +13,7 @@ type JSStyle struct {
 	WS     int // 0 compact, 1 single spaces, 2 random whitespace, comments and line breaks
 	Seed   int64
 	KwOcc  bool // list keyword uses of identifier-like words (async, get, of, let, static, …) among the identifier occurrences, with Bind -2
-	Bang   int // >0: about one separator in Bang is a bang comment (/*! … */ or //! …), which the parser keeps as Comment statements
+	Bang   int  // >0: about one separator in Bang is a bang comment (/*! … */ or //! …), which the parser keeps as Comment statements
 }
 
 // JSIdentOcc is one identifier token of the spelled program, in source order.
@@ -26,9 +26,10 @@ type JSIdentOcc struct {
 }
 
 type jsTok struct {
-	s    string
-	noLT bool // no line terminator may precede this token
-	id   *JSIdentOcc
+	s        string
+	noLT     bool // no line terminator may precede this token
+	id       *JSIdentOcc
+	arrowEnd bool // the '}' that ends the block body of an arrow function: nothing can continue the expression after it
 }
 
 type jsSpeller struct {
@@ -107,6 +108,10 @@ func newSafe(n *JSNode) bool {
 
 // operand spells a sub-expression that must have precedence >= min; wrap allows redundant parentheses.
 func (s *jsSpeller) operand(n *JSNode, min int, wrap bool) {
+	if n.K == "privname" {
+		s.t(n.S) // the private name of `#p in o` is never parenthesised
+		return
+	}
 	need := n.prec() < min
 	if n.K == "bin" && n.Op == "in" && s.noIn {
 		need = true
@@ -462,6 +467,22 @@ func (s *jsSpeller) expr(n *JSNode) {
 		s.t("(")
 		s.inBrackets(func() { s.operand(n.Kids[0], pAssign, true) })
 		s.t(")")
+	case "privname":
+		s.t(n.S)
+	case "importmeta":
+		s.t("import")
+		s.t(".")
+		s.t("meta")
+	case "super":
+		s.t("super")
+		if n.Op == "index" {
+			s.t("[")
+			s.inBrackets(func() { s.operand(n.Kids[0], pComma, true) })
+			s.t("]")
+		} else {
+			s.t(".")
+			s.name(n.S)
+		}
 	case "newtarget":
 		s.t("new")
 		s.t(".")
@@ -553,6 +574,7 @@ func (s *jsSpeller) expr(n *JSNode) {
 			}
 		} else {
 			s.body(n.Kids[1])
+			s.toks[len(s.toks)-1].arrowEnd = true
 		}
 	case "yield":
 		s.t("yield")
@@ -837,7 +859,9 @@ func (s *jsSpeller) stmtList(list []*JSNode, last bool) {
 		switch {
 		case s.st.Semi >= 1 && isLast && last && s.r.Intn(2) == 0:
 			// omitted before '}' / at the end of the program
-		case s.st.Semi == 2 && !isLast && asiSafeStart(spelled[i+1]) && s.r.Intn(2) == 0:
+		case s.st.Semi == 2 && !isLast && (asiSafeStart(spelled[i+1]) || len(spelled[i]) > 0 && spelled[i][len(spelled[i])-1].arrowEnd) && s.r.Intn(2) == 0:
+			// (an arrow function with a block body is a complete AssignmentExpression: whatever starts the next line, also
+			// '(' '[' '/' '+' '-' or a template, cannot continue it, so a semicolon is inserted)
 			s.toks = append(s.toks, jsTok{s: "\n"}) // a line break where the next token cannot continue the statement
 		default:
 			s.t(";")
